@@ -206,6 +206,43 @@ def r3(chk):
         chk.expect("R3", f"registered[{name}]", name in reg, "o2o-macros/src/lib.rs", line, "documented bare attribute is not registered on the derive (rustc would reject it)", found=name)
 
 
+def type_hint_contract(chk, rule):
+    """try_parse_type_hint: `as {}` -> Struct, `as ()` -> Tuple, `as Unit` -> Unit, no `as` -> Unspecified (nothing consumed), anything else an
+    error. Decided by partial evaluation over the peek results (the three token classes are mutually exclusive)."""
+    repo = chk.repo
+    fi = repo.fn(ATTR, "try_parse_type_hint")
+    want = {"Brace": "Struct", "Paren": "Tuple", "kw::Unit": "Unit"}
+    leaves = explore(lambda: Evaluator(repo, IMPL_FILES, shallow=True), lambda ev: ev.run_fn(fi, ev.sym_params(fi)))
+    seen = set()
+    for lf in leaves:
+        if lf.panic or lf.unsupported:
+            chk.inconc(rule, f"try_parse_type_hint not evaluable: {lf.panic or lf.unsupported}")
+            continue
+        d = {re.sub(r"^input\.peek\((.*)\)$", r"\1", a): v for a, v in lf.decisions.items() if a.startswith("input.peek(")}
+        other = [a for a in lf.decisions if not a.startswith("input.peek(")]
+        got = vkey(lf.value)
+        if other or not set(d) <= set(want) | {"Token![as]"}:
+            chk.inconc(rule, f"try_parse_type_hint branches on something other than the documented token classes: {sorted(lf.decisions)[:4]}")
+            continue
+        if d.get("Token![as]") is False:
+            consumed = [e for e in lf.effects if e[1:2] == ("parse",) or e[0] in ("braced", "parenthesized")]
+            chk.expect(rule, "type_hint[none]", got == "Ok(Unspecified)" and not consumed, ATTR, fi.line, "no `as`: the hint must be Unspecified and nothing may be consumed", expected="Ok(Unspecified)", found=got)
+            seen.add("none")
+            continue
+        on = [k for k, v in d.items() if v is True and k in want]
+        if len(on) > 1:
+            continue  # infeasible: the next token cannot be of two classes
+        if not on:
+            chk.expect(rule, "type_hint[as <other>]", got.startswith("Err("), ATTR, fi.line, "an unsupported hint must be an error", found=got[:60])
+            seen.add("other")
+        else:
+            chk.expect(rule, f"type_hint[as {on[0]}]", got == f"Ok({want[on[0]]})", ATTR, fi.line, "type hint token class mapped to the wrong TypeHint", expected=f"Ok({want[on[0]]})", found=got)
+            seen.add(on[0])
+    missing = sorted(set(want) | {"none", "other"} - seen) if False else sorted((set(want) | {"none", "other"}) - seen)
+    if missing:
+        chk.bad(rule, "type_hint/classes", ATTR, fi.line, "a documented type-hint form is no longer recognised", found=missing)
+
+
 def import_parse_contracts(chk, rule, levels=("type", "member", "nested-parent")):
     """Other properties take `applicable_to[kind]` / `fallible` of a parsed instruction as given; the contract of the name tables
     (name -> kinds, fallibility) is imported here as a rule of the importing property."""
@@ -222,9 +259,11 @@ def import_parse_contracts(chk, rule, levels=("type", "member", "nested-parent")
             chk.ok(rule, "names:" + i.key, i.file, i.line)
         else:
             chk.bad(rule, "names:" + i.key, i.file, i.line, i.what, i.expected, i.found)
+    type_hint_contract(chk, rule)
 
 
 def run(chk):
     chk.guard("R1", lambda: r1(chk))
+    chk.guard("R1", lambda: type_hint_contract(chk, "R1"))
     chk.guard("R2", lambda: r2(chk))
     chk.guard("R3", lambda: r3(chk))
